@@ -62,7 +62,8 @@ type mergeFn struct {
 
 type claimCall struct {
 	call   *ssa.Call
-	callee *ssa.Function
+	callee *ssa.Function // the function called: a wrapper of resultOwners or the ledger method itself
+	ledger *ssa.Function // the method of *owners that does the work
 	id     ssa.Value
 	key    ssa.Value // nil for unkeyed items
 }
@@ -117,6 +118,42 @@ func claimFamily(m *Module) (claims, clears []*ssa.Function, accessor *ssa.Funct
 	return
 }
 
+// ledgerFamily: the claim (returning error) and clear (no result) methods of the per-container ledger *owners.
+func ledgerFamily(m *Module) (claims, clears []*ssa.Function) {
+	for _, f := range m.methodsOf(pkgAdapt, "owners") {
+		r := f.Signature.Results()
+		switch {
+		case r.Len() == 1 && isErrorType(r.At(0).Type()):
+			claims = append(claims, f)
+		case r.Len() == 0:
+			clears = append(clears, f)
+		}
+	}
+	return
+}
+
+// ledgerOf resolves a claim/clear function to the ledger method that does the work: the method of
+// *owners itself, or the one such method a wrapper of resultOwners calls.
+func ledgerOf(m *Module, f *ssa.Function) *ssa.Function {
+	if rn := recvNamed(f); rn != nil && rn.Obj().Name() == "owners" {
+		return f
+	}
+	var found *ssa.Function
+	for _, ci := range calls(f) {
+		g := m.callee(ci.Common())
+		if rn := recvNamed(g); rn != nil && rn.Obj().Name() == "owners" {
+			if found != nil && found != g {
+				return nil
+			}
+			found = g
+		}
+	}
+	return found
+}
+
+// name of the claim/clear: the ledger method's.
+func (cc *claimCall) name() string { return cc.ledger.Name() }
+
 func newMergeFn(m *Module, fn *ssa.Function) *mergeFn {
 	mf := &mergeFn{m: m, fn: fn, plugin: map[*ssa.Parameter]bool{}, acc: map[*ssa.Parameter]bool{},
 		memo: map[ssa.Value]Tag{}, inprog: map[ssa.Value]bool{}}
@@ -146,7 +183,8 @@ func newMergeFn(m *Module, fn *ssa.Function) *mergeFn {
 			mf.plugin[p] = true
 		}
 	}
-	claims, clears, _ := claimFamily(m)
+	claims, clears, accessor := claimFamily(m)
+	lclaims, lclears := ledgerFamily(m)
 	isIn := func(f *ssa.Function, set []*ssa.Function) bool {
 		for _, g := range set {
 			if g == f {
@@ -164,13 +202,17 @@ func newMergeFn(m *Module, fn *ssa.Function) *mergeFn {
 		if cal == nil {
 			continue
 		}
-		if isIn(cal, claims) || isIn(cal, clears) {
-			cc := &claimCall{call: call, callee: cal}
-			args := call.Call.Args // receiver first
+		args := call.Call.Args // receiver first
+		switch {
+		case isIn(cal, claims) || isIn(cal, clears):
+			// through a wrapper: (ro, id[, key][, plugin])
+			cc := &claimCall{call: call, callee: cal, ledger: ledgerOf(m, cal)}
+			if cc.ledger == nil {
+				cc.ledger = cal
+			}
 			if len(args) >= 2 {
 				cc.id = args[1]
 			}
-			// keyed claims: (ro, id, key, plugin); keyed clears: (ro, id, key)
 			if isIn(cal, claims) && len(args) == 4 {
 				cc.key = args[2]
 			}
@@ -178,6 +220,24 @@ func newMergeFn(m *Module, fn *ssa.Function) *mergeFn {
 				cc.key = args[2]
 			}
 			if isIn(cal, claims) {
+				mf.claims = append(mf.claims, cc)
+			} else {
+				mf.clears = append(mf.clears, cc)
+			}
+		case isIn(cal, lclaims) || isIn(cal, lclears):
+			// directly on the per-container ledger: ownersFor(id).claimX([key,] plugin)
+			acc, ok := args[0].(*ssa.Call)
+			if !ok || accessor == nil || m.callee(acc.Common()) != accessor || len(acc.Call.Args) != 2 {
+				continue
+			}
+			cc := &claimCall{call: call, callee: cal, ledger: cal, id: acc.Call.Args[1]}
+			if isIn(cal, lclaims) && len(args) == 3 {
+				cc.key = args[1]
+			}
+			if isIn(cal, lclears) && len(args) == 2 {
+				cc.key = args[1]
+			}
+			if isIn(cal, lclaims) {
 				mf.claims = append(mf.claims, cc)
 			} else {
 				mf.clears = append(mf.clears, cc)
